@@ -9,3 +9,230 @@ pub(crate) fn mk_line(number: LineNumber, tokens: Vec<Token>) -> Line {
 pub(crate) fn tokens_of(line: &Line) -> &Vec<Token> {
     &line.tokens
 }
+
+// ---------------------------------------------------------------------------------------------------------------
+// C14: the reference collector of RENUM, on statements built directly as AST values (no lexing / parsing).
+use crate::vshim::collections::HashMap as VHashMap;
+use crate::vshim::vec::BStore;
+
+const MAXLN: u16 = 65529;
+
+/// Runs the collector on one statement with the change map {from -> to}; returns the collected (column, number) list.
+fn collect(stmt: &Statement, from: u16, to: u16) -> Vec<(Column, u16)> {
+    let mut changes: VHashMap<u16, u16> = VHashMap::new();
+    changes.insert(from, to);
+    let mut visitor = RenumVisitor::new(&changes);
+    stmt.accept(&mut visitor);
+    let mut out: Vec<(Column, u16)> = Vec::new();
+    for (c, n) in visitor.replace.iter() {
+        out.push((c.clone(), *n));
+    }
+    out
+}
+fn num(col: &Column, n: u16) -> Expression {
+    Expression::Single(col.clone(), n as f32)
+}
+/// one symbolic reference: (operand column, referenced number, renumbered line, its new number)
+fn any_ref() -> (Column, u16, u16, u16) {
+    let a = vk::any_u8() as usize;
+    let w = 1 + (vk::any_below(5) as usize);
+    let (t, from, to) = (vk::any_u16(), vk::any_u16(), vk::any_u16());
+    vk::assume(t <= MAXLN && from <= MAXLN && to <= MAXLN);
+    (a..a + w, t, from, to)
+}
+fn expect_one(got: &Vec<(Column, u16)>, col: &Column, hit: bool, to: u16) {
+    if hit {
+        vk_check!(got.len() == 1, "C14: a reference to a renumbered line must be collected exactly once");
+        if let Some((c, n)) = got.get(0) {
+            vk_check!(c.start == col.start && c.end == col.end && *n == to, "C14: the operand's own column must be rewritten to the line's new number");
+        }
+    } else {
+        vk_check!(got.len() == 0, "C14: an operand that does not name a renumbered line must not be touched");
+    }
+}
+
+macro_rules! single_ref_harness {
+    ($name:ident, $build:expr) => {
+        vk_harness!($name, {
+            let (col, t, from, to) = any_ref();
+            let stmt_col = 0..col.start;
+            let build: fn(Column, Expression) -> Statement = $build;
+            let stmt = build(stmt_col, num(&col, t));
+            let got = collect(&stmt, from, to);
+            expect_one(&got, &col, t == from, to);
+            vk_cover!(t == from, "reach: reference hit");
+            vk_cover!(t != from, "reach: reference miss");
+            core::mem::forget(stmt);
+        });
+    };
+}
+
+//@ prop: C14
+//@ tier: quick
+//@ unwind: 8
+//@ encodes: RenumVisitor::visit_statement / RenumVisitor::line on Statement::Goto
+//@ bounds: operand: any line number <= 65529 at any column (< 256, width 1..5); change map: one entry with arbitrary numbers
+single_ref_harness!(c14_refs_goto, |c, e| Statement::Goto(c, e));
+
+//@ prop: C14
+//@ tier: quick
+//@ unwind: 8
+//@ encodes: RenumVisitor::visit_statement / RenumVisitor::line on Statement::Gosub
+//@ bounds: operand: any line number <= 65529 at any column (< 256, width 1..5); change map: one entry with arbitrary numbers
+single_ref_harness!(c14_refs_gosub, |c, e| Statement::Gosub(c, e));
+
+//@ prop: C14
+//@ tier: quick
+//@ unwind: 8
+//@ encodes: RenumVisitor::visit_statement / RenumVisitor::line on Statement::Restore with an operand
+//@ bounds: operand: any line number <= 65529 at any column (< 256, width 1..5); change map: one entry with arbitrary numbers
+single_ref_harness!(c14_refs_restore, |c, e| Statement::Restore(c, e));
+
+//@ prop: C14
+//@ tier: quick
+//@ unwind: 8
+//@ encodes: RenumVisitor::visit_statement / RenumVisitor::line on Statement::Run with a line operand
+//@ bounds: operand: any line number <= 65529 at any column (< 256, width 1..5); change map: one entry with arbitrary numbers
+single_ref_harness!(c14_refs_run, |c, e| Statement::Run(c, e));
+
+//@ prop: C14
+//@ tier: quick
+//@ unwind: 8
+//@ encodes: RenumVisitor on Statement::If whose THEN branch is the GOTO the parser builds for 'IF x THEN n' (visited through AcceptVisitor)
+//@ bounds: operand: any line number <= 65529 at any column; change map: one entry; predicate fixed to a literal
+vk_harness!(c14_refs_if_then, {
+    let (col, t, from, to) = any_ref();
+    let mut st: BStore<Statement> = BStore::new();
+    let mut then_stmt: BVec<Statement> = BVec::harness_on(&mut st);
+    then_stmt.push(Statement::Goto(0..col.start, num(&col, t)));
+    let stmt = Statement::If(0..2, Expression::Integer(3..4, 1), then_stmt, BVec::new());
+    let got = collect(&stmt, from, to);
+    expect_one(&got, &col, t == from, to);
+    vk_cover!(t == from, "reach: reference hit");
+    core::mem::forget(stmt);
+});
+
+//@ prop: C14
+//@ tier: quick
+//@ unwind: 8
+//@ encodes: RenumVisitor on Statement::If whose ELSE branch is a GOTO ('IF x THEN .. ELSE n')
+//@ bounds: operand: any line number <= 65529 at any column; change map: one entry; predicate fixed to a literal
+vk_harness!(c14_refs_if_else, {
+    let (col, t, from, to) = any_ref();
+    let mut st: BStore<Statement> = BStore::new();
+    let mut else_stmt: BVec<Statement> = BVec::harness_on(&mut st);
+    else_stmt.push(Statement::Goto(0..col.start, num(&col, t)));
+    let stmt = Statement::If(0..2, Expression::Integer(3..4, 1), BVec::new(), else_stmt);
+    let got = collect(&stmt, from, to);
+    expect_one(&got, &col, t == from, to);
+    vk_cover!(t == from, "reach: reference hit");
+    core::mem::forget(stmt);
+});
+
+fn two_refs(gosub: bool, ranged: u8) {
+    // two operands at disjoint columns; the change map renumbers `from`
+    let a = vk::any_u8() as usize;
+    let (c1, c2) = (a..a + 2, a + 3..a + 5);
+    let (t1, t2, from, to) = (vk::any_u16(), vk::any_u16(), vk::any_u16(), vk::any_u16());
+    vk::assume(t1 <= MAXLN && t2 <= MAXLN && from <= MAXLN && to <= MAXLN);
+    let mut st: BStore<Expression> = BStore::new();
+    let stmt = match ranged {
+        0 => {
+            let mut ve: BVec<Expression> = BVec::harness_on(&mut st);
+            ve.push(num(&c1, t1));
+            ve.push(num(&c2, t2));
+            if gosub {
+                Statement::OnGosub(0..a, Expression::Integer(0..1, 1), ve)
+            } else {
+                Statement::OnGoto(0..a, Expression::Integer(0..1, 1), ve)
+            }
+        }
+        1 => Statement::List(0..a, num(&c1, t1), num(&c2, t2)),
+        _ => Statement::Delete(0..a, num(&c1, t1), num(&c2, t2)),
+    };
+    let got = collect(&stmt, from, to);
+    let want = (t1 == from) as usize + (t2 == from) as usize;
+    vk_check!(got.len() == want, "C14: every operand of a multi-operand statement that names a renumbered line must be collected, and no other");
+    let mut i = 0;
+    while i < got.len() {
+        if let Some((c, n)) = got.get(i) {
+            vk_check!(*n == to, "C14: collected operands get the line's new number");
+            let is1 = c.start == c1.start && c.end == c1.end && t1 == from;
+            let is2 = c.start == c2.start && c.end == c2.end && t2 == from;
+            vk_check!(is1 || is2, "C14: a collected column must be the column of an operand that names the renumbered line");
+        }
+        i += 1;
+    }
+    if got.len() == 2 {
+        if let (Some(x), Some(y)) = (got.get(0), got.get(1)) {
+            vk_check!(x.0.start != y.0.start, "C14: both operands must be collected, not one twice");
+        }
+    }
+    vk_cover!(want == 2, "reach: both operands hit");
+    vk_cover!(want == 0, "reach: no operand hit");
+    core::mem::forget(stmt);
+}
+
+//@ prop: C14
+//@ tier: quick
+//@ unwind: 8
+//@ encodes: RenumVisitor on Statement::OnGoto with two targets
+//@ bounds: two operands with arbitrary line numbers <= 65529; change map: one entry with arbitrary numbers
+vk_harness!(c14_refs_on_goto, {
+    two_refs(false, 0);
+});
+
+//@ prop: C14
+//@ tier: quick
+//@ unwind: 8
+//@ encodes: RenumVisitor on Statement::OnGosub with two targets
+//@ bounds: two operands with arbitrary line numbers <= 65529; change map: one entry with arbitrary numbers
+vk_harness!(c14_refs_on_gosub, {
+    two_refs(true, 0);
+});
+
+//@ prop: C14
+//@ tier: quick
+//@ unwind: 8
+//@ encodes: RenumVisitor on Statement::List a-b
+//@ bounds: two operands with arbitrary line numbers <= 65529; change map: one entry with arbitrary numbers
+vk_harness!(c14_refs_list, {
+    two_refs(false, 1);
+});
+
+//@ prop: C14
+//@ tier: quick
+//@ unwind: 8
+//@ encodes: RenumVisitor on Statement::Delete a-b
+//@ bounds: two operands with arbitrary line numbers <= 65529; change map: one entry with arbitrary numbers
+vk_harness!(c14_refs_delete, {
+    two_refs(false, 2);
+});
+
+//@ prop: C14
+//@ tier: quick
+//@ unwind: 8
+//@ encodes: RenumVisitor on the operand-less forms as the parser builds them: RESTORE / RUN (sentinel -1), LIST / DELETE n- / LIST -n (default bounds 0 and 65529 at an empty column)
+//@ bounds: change map: one entry with arbitrary numbers (in particular line 0 and line 65529); statement column arbitrary
+vk_harness!(c14_refs_omitted_operands, {
+    let a = vk::any_u8() as usize;
+    let (from, to) = (vk::any_u16(), vk::any_u16());
+    vk::assume(from <= MAXLN && to <= MAXLN);
+    let kw = a..a + 4;
+    let empty = a + 4..a + 4;
+    let forms = [
+        Statement::Restore(kw.clone(), Expression::Single(kw.clone(), -1.0)),
+        Statement::Run(kw.clone(), Expression::Single(empty.clone(), -1.0)),
+        Statement::List(kw.clone(), Expression::Single(empty.clone(), 0.0), Expression::Single(empty.clone(), MAXLN as f32)),
+        Statement::Delete(kw.clone(), Expression::Single(empty.clone(), 0.0), Expression::Single(empty.clone(), MAXLN as f32)),
+    ];
+    let mut i = 0;
+    while i < 4 {
+        let got = collect(&forms[i], from, to);
+        vk_check!(got.len() == 0, "C14: an operand that was not written is not a line reference and must not be rewritten");
+        i += 1;
+    }
+    vk_cover!(from == 0, "reach: line 0 renumbered");
+    vk_cover!(from == MAXLN, "reach: line 65529 renumbered");
+    core::mem::forget(forms);
+});
